@@ -48,6 +48,7 @@ struct Member {      // a fiber holding part of the count
   std::uint32_t extra = 0;     // nested Add(extra) ... Done(extra) while holding its own share
   std::uint32_t share = 1;
   std::vector<std::uint64_t> done_invokes;
+  int cell = 0;  // written before Done, read by released waiters
 };
 
 struct Fut {
@@ -139,6 +140,12 @@ class Case final : public sim::CaseBase {
   void Released(int w) {
     auto& wt = waiters[static_cast<std::size_t>(w)];
     ++wt.releases;
+    for (auto& m : members) {
+      sim::RaceRead(&m.cell, sizeof m.cell);
+      if (m.cell != 1) {
+        sim::Fail("STALE_PAYLOAD", "a released waiter does not see what a member wrote before its Done");
+      }
+    }
     wt.released = sim::Seq();
     wt.exec = sim::CurrentExec();
     wt.returned = true;
@@ -276,6 +283,8 @@ class Case final : public sim::CaseBase {
           RecordDone(m.done_invokes);
           group.Done(m.extra);
         }
+        sim::RaceWrite(&m.cell, sizeof m.cell);
+        m.cell = 1;
         RecordDone(m.done_invokes);
         group.Done(m.share);
       });
